@@ -112,6 +112,18 @@ fn evh(st: &mut Stats, ty: Ty, pic: &str, text: &str, expect: Result<V, ()>, why
     }
 }
 
+/// `ev` whose arguments are only built when this shard evaluates the case (sanitizer slices run 1/96 of the cases;
+/// building ten thousand strings per shard costs minutes under Miri)
+macro_rules! evl {
+    ($st:expr, $ty:expr, $pic:expr, $text:expr, $exp:expr, $why:expr) => {
+        if $st.next_is_mine() {
+            ev($st, $ty, $pic, $text, $exp, $why)
+        } else {
+            $st.skip_one()
+        }
+    };
+}
+
 /// builds the expected value of a date-bearing type from (y,m,d) + zero time
 fn date_as(ty: Ty, y: i32, m: u32, d: u32) -> V {
     match ty {
@@ -225,7 +237,7 @@ pub fn run(ctx: &Ctx, st: &mut Stats) {
                 // Time
                 let total = (h as i64 * 3600 + mi as i64 * 60 + s as i64 + carry as i64) * 1_000_000 + nus as i64;
                 let exp_t = if total >= DAY_US { Err(()) } else { Ok(V::Time((total / 3_600_000_000) as u32, (total / 60_000_000 % 60) as u32, (total / 1_000_000 % 60) as u32, (total % 1_000_000) as u32)) };
-                ev(st, Ty::Time, &format!("HH24:MI:SS.{}", ff), &format!("{:02}:{:02}:{:02}.{}", h, mi, s, frac), exp_t, "fraction-carry");
+                evl!(st, Ty::Time, &format!("HH24:MI:SS.{}", ff), &format!("{:02}:{:02}:{:02}.{}", h, mi, s, frac), exp_t, "fraction-carry");
                 // Timestamp at month/year ends and the maximum
                 for (y, m, d) in [(2020, 12, 31), (2021, 2, 28), (2020, 2, 28), (1969, 12, 31), (1, 1, 1), (9999, 12, 31), (1899, 12, 31)] {
                     let n = crate::cal::days_from_civil(y, m, d);
@@ -237,14 +249,14 @@ pub fn run(ctx: &Ctx, st: &mut Stats) {
                         let (yy, mm, dd) = crate::cal::civil_from_days(dn);
                         Ok(V::Ts(yy as i32, mm, dd, (r / 3_600_000_000) as u32, (r / 60_000_000 % 60) as u32, (r / 1_000_000 % 60) as u32, (r % 1_000_000) as u32))
                     };
-                    ev(st, Ty::Ts, &format!("YYYY-MM-DD HH24:MI:SS.{}", ff), &format!("{:04}-{:02}-{:02} {:02}:{:02}:{:02}.{}", y, m, d, h, mi, s, frac), exp, "fraction-carry");
+                    evl!(st, Ty::Ts, &format!("YYYY-MM-DD HH24:MI:SS.{}", ff), &format!("{:04}-{:02}-{:02} {:02}:{:02}:{:02}.{}", y, m, d, h, mi, s, frac), exp, "fraction-carry");
                     // with a weekday field: it is the weekday of the date *written*, also when the carry moves the value to the next day
                     let wd = crate::cal::weekday_sun0(n) as usize;
                     for (k, (wpic, wtext)) in [("DY", DAYS[wd][..3].to_string()), ("DAY", DAYS[wd].to_string()), ("D", format!("{}", wd + 1))].into_iter().enumerate() {
-                        ev(st, Ty::Ts, &format!("{} YYYY-MM-DD HH24:MI:SS.{}", wpic, ff), &format!("{} {:04}-{:02}-{:02} {:02}:{:02}:{:02}.{}", wtext, y, m, d, h, mi, s, frac), exp, "fraction-carry-with-weekday");
+                        evl!(st, Ty::Ts, &format!("{} YYYY-MM-DD HH24:MI:SS.{}", wpic, ff), &format!("{} {:04}-{:02}-{:02} {:02}:{:02}:{:02}.{}", wtext, y, m, d, h, mi, s, frac), exp, "fraction-carry-with-weekday");
                         let nx = (wd + 1) % 7;
                         let wrong = [DAYS[nx][..3].to_string(), DAYS[nx].to_string(), format!("{}", nx + 1)][k].clone();
-                        ev(st, Ty::Ts, &format!("{} YYYY-MM-DD HH24:MI:SS.{}", wpic, ff), &format!("{} {:04}-{:02}-{:02} {:02}:{:02}:{:02}.{}", wrong, y, m, d, h, mi, s, frac), Err(()), "weekday-disagrees-with-date");
+                        evl!(st, Ty::Ts, &format!("{} YYYY-MM-DD HH24:MI:SS.{}", wpic, ff), &format!("{} {:04}-{:02}-{:02} {:02}:{:02}:{:02}.{}", wrong, y, m, d, h, mi, s, frac), Err(()), "weekday-disagrees-with-date");
                     }
                 }
                 // IntervalDT, both signs, incl. the limit
@@ -256,7 +268,7 @@ pub fn run(ctx: &Ctx, st: &mut Stats) {
                         let (dn, r) = ((mag / DAY_US as i128) as u32, (mag % DAY_US as i128) as i64);
                         Ok(V::DT(neg && mag != 0, dn, (r / 3_600_000_000) as u32, (r / 60_000_000 % 60) as u32, (r / 1_000_000 % 60) as u32, (r % 1_000_000) as u32))
                     };
-                    ev(st, Ty::DT, &format!("DD HH24:MI:SS.{}", ff), &format!("{}{} {:02}:{:02}:{:02}.{}", if neg { "-" } else { "+" }, dd, h, mi, s, frac), exp, "fraction-carry");
+                    evl!(st, Ty::DT, &format!("DD HH24:MI:SS.{}", ff), &format!("{}{} {:02}:{:02}:{:02}.{}", if neg { "-" } else { "+" }, dd, h, mi, s, frac), exp, "fraction-carry");
                 }
             }
         }
@@ -363,7 +375,7 @@ pub fn run(ctx: &Ctx, st: &mut Stats) {
         (Ty::Time, "FF FF", "1 1", Err(())),
         (Ty::Time, "AM HH PM", "AM 12 AM", Err(())),
     ] {
-        ev(st, ty, pic, text, exp, "explicit");
+        evl!(st, ty, pic, text, exp, "explicit");
     }
     // (d2) every non-ASCII character (BMP) after and before a valid text: blanks are the ASCII ones, anything else is text
     //      the picture does not account for
